@@ -34,3 +34,5 @@ Definition runTrace1 G soft ks emap encN encNact tp ms xs ys zs acc0 :=
   flat (grav_trace1 FNum G soft (ksf ks) emap encN encNact tp (mkps ms xs ys zs) (unflat acc0)).
 (* the changeover function alone: reb_integrator_mercurius_L_mercury(r, d, dcrit) *)
 Definition runL (d dcrit : float) : list float := [L_mercury FNum d dcrit].
+Definition runL4 (d dcrit : float) : list float := [L_C4 FNum d dcrit].
+Definition runL5 (d dcrit : float) : list float := [L_C5 FNum d dcrit].
